@@ -28,6 +28,10 @@ Definition exists_in (o : sobs) (v : vehicle_id) : bool := match nodes_in o v wi
 Definition all_ids (o : sobs) : list vehicle_id := map (fun '(v, _, _) => v) (so_vehicles o) ++ map fst (so_dummies o).
 Definition nondep (l : list node_id) : list node_id := filter (fun n => negb (is_depot (nd nw n))) l.
 Definition services (l : list node_id) : list node_id := filter (fun n => is_service (nd nw n)) l.
+(* what a new dummy tour holds of a removed / displaced non-depot node list: the whole list (its service trips and
+   the maintenance slots between them), provided there is a service trip to hand back at all *)
+Definition handed_back (l : list node_id) : list node_id :=
+  if Nat.eqb (length (services l)) 0 then [] else l.
 Definition opt_nids_eqb (x y : option (list node_id)) : bool :=
   match x, y with Some l, Some m => nids_eqb l m | None, None => true | _, _ => false end.
 
@@ -94,7 +98,7 @@ Definition check_op (op : opobs) : list Z :=
       | Some t =>
           let nds := nondep (t_nodes t) in
           (if negb (exists_in a v) then [] else [1321]) ++
-          (if others_unchanged [v] && new_dummies_are [services nds] [] then [] else [1322]) ++
+          (if others_unchanged [v] && new_dummies_are [handed_back nds] [] then [] else [1322]) ++
           (if removed_keeping_order v nds && forms_unchanged_except nds then [] else [1323])
       | None => [1320]
       end
@@ -124,7 +128,7 @@ Definition check_op (op : opobs) : list Z :=
               let vanishes := Nat.eqb (length (nondep rest)) 0 in
               (if ref_removable nw false (t_nodes t) i j &&
                   (if vanishes then negb (exists_in a v) else opt_nids_eqb (nodes_in a v) (Some rest)) then [] else [1341]) ++
-              (if others_unchanged [v] && new_dummies_are [services (nondep removed)] [] then [] else [1342]) ++
+              (if others_unchanged [v] && new_dummies_are [handed_back (nondep removed)] [] then [] else [1342]) ++
               (if removed_keeping_order v (nondep removed) && forms_unchanged_except (nondep removed) then [] else [1343])
           | _, _ => [1340]
           end
@@ -147,7 +151,7 @@ Definition check_op (op : opobs) : list Z :=
                   (if vanishes then negb (exists_in a p) else opt_nids_eqb (nodes_in a p) (Some rest)) then [] else [1351]) ++
               (if opt_nids_eqb (nodes_in a r) (Some want) then [] else [1352]) ++
               (if others_unchanged (p :: r :: match newd with Some d => [d] | None => [] end) &&
-                  new_dummies_are [services (nondep dropped)] [] &&
+                  new_dummies_are [handed_back (nondep dropped)] [] &&
                   match newd with
                   | Some d => negb (Nat.eqb (length (services (nondep dropped))) 0) && mem_vid d new_ids
                   | None => Nat.eqb (length (services (nondep dropped))) 0
